@@ -293,6 +293,8 @@ def split_obs(case, obs):
 
 
 def _result(o):
+    if "badret" in o:   # a failed call that did not return -1: matches no model result, accepted by no oracle clause
+        return "RErr %s" % gz(-1000000 + int(o["badret"]))
     if "err" in o:
         return "RErr %s" % gz(o["err"])
     return "RRet %s %s" % (gz(o["ret"]), glist([gz(b) for b in o.get("bytes", [])]))
